@@ -53,7 +53,7 @@ package airgapped
 //@   nosafety
 //@   requires wfMachine(am)
 //@   modifies *
-//@   modifies $handlerErr, $dealsOK, $responsesOK, $keyrings, $handled, $reader, $readerSeed, $ciphers, $bufc, $suites, $suiteSeed
+//@   modifies $handlerErr, $dealsOK, $responsesOK, $keyrings, $handled, $reader, $readerSeed, $ciphers, $bufc, $suites, $suiteSeed, $decryptOK
 //@   epilogue $handled = (result1 == nil)
 //@   ensures $logged == old($logged)
 
@@ -63,7 +63,7 @@ package airgapped
 //@   nosafety
 //@   safety C04
 //@   modifies *
-//@   modifies $ciphers, $bufc
+//@   modifies $ciphers, $bufc, $decryptOK
 //@   assert@call GenerateKeys[C04.wrongpw] errIs(loc(err), leveldb.ErrNotFound)
 
 // a failed step is reported with the error event of the phase the operation belongs to - the event that, by the
@@ -90,7 +90,7 @@ package airgapped
 //@   safety C12
 //@   requires wfMachine(am)
 //@   modifies *
-//@   modifies $handled, $handlerErr, $dealsOK, $responsesOK, $keyrings, $reader, $readerSeed, $ciphers, $bufc, $files, $suites, $suiteSeed
+//@   modifies $handled, $handlerErr, $dealsOK, $responsesOK, $keyrings, $reader, $readerSeed, $ciphers, $bufc, $files, $suites, $suiteSeed, $decryptOK
 //@   loop 0 invariant $logged == old($logged) && wfMachine(am)
 //@   assert@call ProcessOperation[C12.replay.nolog] !storeOperation
 //@   ensures[C12.replay.nolog] $logged == old($logged)
@@ -124,7 +124,7 @@ package airgapped
 //@   requires wfMachine(am)
 //@   prologue $handled = false
 //@   modifies *
-//@   modifies $handlerErr, $dealsOK, $responsesOK, $keyrings, $logged, $reader, $readerSeed, $ciphers, $bufc, $suites, $suiteSeed
+//@   modifies $handlerErr, $dealsOK, $responsesOK, $keyrings, $logged, $reader, $readerSeed, $ciphers, $bufc, $suites, $suiteSeed, $decryptOK
 //@   modifies $files
 // (trusted, not proved here: the handlers add a round to dkgInstances only after InitDKGInstance succeeded and never
 // store a nil instance, so the rounds known to the machine stay fully initialised across an operation)
@@ -145,7 +145,7 @@ package airgapped
 //@   requires wfMachine(am) && o != nil
 //@   loop 0 invariant forall j int :: 0 <= j && j <= $i ==> payload[j] != nil
 //@   modifies *
-//@   modifies $handlerErr, $reader, $readerSeed, $suites, $suiteSeed
+//@   modifies $handlerErr, $reader, $readerSeed, $suites, $suiteSeed, $decryptOK
 //@   epilogue $handlerErr = (result != nil)
 //@   assert@call InitDKGInstance[C04.round.entropy] content(seed) == acontent(loc(dkgSeed), 32)
 
@@ -231,12 +231,16 @@ package airgapped
 //@   pure
 //@   ensures result1 == nil ==> content(result0) == partialSignOf(dkgIdentifier, content(msg)) && fresh(result0)
 
+// a keyring is handed out only after its stored record was decrypted in this very call, under the key the machine
+// holds now: nothing decrypted earlier is kept (after DropSensitiveData or a wrong password nothing can be loaded)
 //@ func (*Machine).loadBLSKeyring
 //@   safety C18
 //@   nosafety
 //@   requires am != nil
 //@   modifies *
-//@   modifies $bufc
+//@   modifies $bufc, $decryptOK
+//@   assert@call decrypt[C04.keyring.password] content(key) == content(am.encryptionKey)
+//@   ensures[C04.keyring.password] result1 == nil ==> $decryptOK > old($decryptOK)
 //@   ensures unchanged("Machine.dkgInstances", "map[string]*dkg.DKG", "dkg.DKG.instance", "client.Operation.DKGIdentifier")
 //@   ensures[C18.keyring.nonnil] result1 == nil ==> result0 != nil
 
@@ -258,11 +262,23 @@ package airgapped
 
 // decrypting keeps no state: nothing but byte buffers is written (in particular no derived key is remembered, so a
 // password is needed for every load)
+//   $decryptOK = successful decryptions so far
+//@ ghost var $decryptOK int
 //@ func decrypt
 //@   safety C04
 //@   nosafety
 //@   modifies []byte
+//@   modifies $decryptOK
+//@   epilogue $decryptOK = ite(result1 == nil, old($decryptOK) + 1, old($decryptOK))
 //@   ensures[C04.key.nocache] true
+
+// the operator's password reaches the key derivation whole: what is kept as the encryption key is exactly what was entered
+//@ func (*Machine).SetEncryptionKey
+//@   nosafety
+//@   safety C04
+//@   requires am != nil
+//@   modifies Machine.encryptionKey
+//@   ensures[C04.password.whole] content(am.encryptionKey) == content(key) && len(am.encryptionKey) == len(key)
 //@ func encrypt behavior frame
 //@   nosafety
 //@   requires true
